@@ -32,10 +32,10 @@ def targets_for(kind):
     return PERSISTENT if lib.is_persistent(kind) else ONE_SHOT
 
 
-def mk_case(ctx, kind, flavour, idx, fault=None, policy=None, knobs=None, timeout=1, tag=''):
+def mk_case(ctx, kind, flavour, idx, fault=None, policy=None, knobs=None, timeout=1, tag='', fault2=None):
     ent = next(e for e in targets_for(kind) if e[0] == flavour)
     return {'kind': kind, 'flavour': flavour, 'fn': ent[1], 'kwargs': ent[2], 'items': ent[3] if len(ent) > 3 else None,
-            'fault': fault, 'timeout': timeout, 'policy': policy or {'kind': 'random', 'p_stay': 0.5}, 'knobs': knobs or {},
+            'fault': fault, 'fault2': fault2, 'timeout': timeout, 'policy': policy or {'kind': 'random', 'p_stay': 0.5}, 'knobs': knobs or {},
             'sched_seed': ctx.case_seed(tag, kind, flavour, idx)}
 
 
@@ -48,6 +48,7 @@ class Run:
         if case.get('census'):
             C.install_census(sim)
         C.install_fault(sim, case.get('fault'))
+        C.install_fault(sim, case.get('fault2'))
 
     def root(self):
         s, c = self.sim, self.case
@@ -120,7 +121,12 @@ class Run:
         own = set()
         if lib.is_persistent(kind):
             n_ok = len([e for e in left if e['how'] == 'return'])
-            own.add((False, n_ok, None))
+            n_raise = len([e for e in left if e['how'] == 'raise' and e['exc'] != C.WTE])
+            n_enq = len(c['items'] or []) - len(self.info.get('enqueue-raised') or [])
+            # a persistent worker "finishes on its own" by running out of input: the release of terminate() is queued behind the
+            # inputs enqueued before it, so a successful end means that every one of them was processed
+            if n_ok + n_raise >= n_enq:
+                own.add((False, n_ok, None))
             for e in left:
                 if e['how'] == 'raise' and e['exc'] != C.WTE:
                     own.add((True, None, e['exc']))
@@ -152,10 +158,12 @@ class Run:
                 if got not in allowed:
                     V.append({'clause': 'reported-as-terminated', 'manifestation': f'{where}:got={_g(got)}:landed@{tag}',
                               'detail': {'final': fin, 'landing': l, 'own': sorted(map(str, own))}})
-                if term.get('status') == 'ok' and term.get('value') is not True:
+                slowed = bool(c.get('fault2')) and s.fault_counts.get('stall@point')
+                if term.get('status') == 'ok' and term.get('value') is not True and not slowed:
+                    # (liveness: not demanded of a child whose control thread was descheduled by an injected stall)
                     V.append({'clause': 'dead-within-timeout', 'manifestation': f'{where}:terminate-returned-{term.get("value")}:landed@{tag}',
                               'detail': {'terminate': term, 'landing': l}})
-                if term.get('status') == 'ok' and term.get('elapsed', 0) > 5 * c['timeout'] + 2:
+                if term.get('status') == 'ok' and term.get('elapsed', 0) > 5 * c['timeout'] + 2 and not slowed:
                     V.append({'clause': 'dead-within-timeout', 'manifestation': f'{where}:slow-terminate', 'detail': term})
                 tried = [e for e in truth if e['kind'] == 'try-entered' and truth.index(e) < nseq]
                 if where == 'in-target' and tried:
@@ -236,6 +244,17 @@ def plan(ctx):
                                     'after the constructor returned, per worker class and target', 'points': total,
                            'cases': len(enum_cases), 'complete': not quick}
     ctx.run(enum_cases, 'enumerated-delivery-points')
+    # directed: the request arrives while a persistent worker is busy with the first of two queued items, and the child's control
+    # thread is descheduled at each of its lines in turn (e.g. between noting the request and raising the exception)
+    dcases = []
+    for kind in ('pprocess', 'premote'):
+        fns = ['ProcessWorker._ctrl_fn'] if kind == 'pprocess' else ['RemoteWorker._ctrl_fn_local', 'RemoteWorker._ctrl_fn_remote']
+        for fn2 in fns:
+            for occ in range(1, 16):
+                dcases.append(mk_case(ctx, kind, 'p-slow2', len(dcases), fault={'kind': 'gate', 'thread': None, 'qualname': 'p_slow', 'occ': 2},
+                                      policy={'kind': 'random', 'p_stay': rng.choice([0.0, 0.5, 0.9])}, knobs={}, timeout=5, tag='slow-ctrl',
+                                      fault2={'kind': 'stall', 'role': fn2, 'any_thread': True, 'qualname': fn2, 'occ': occ, 'duration': 1.0}))
+    ctx.run(dcases, 'slow-control-thread')
     # random instants + random schedules
     n = 1200 if quick else 25000
     rcases = []
@@ -250,7 +269,13 @@ def plan(ctx):
             fault = {'kind': 'terminate', 'thread': tname, 'ndp': pts[rng.randrange(len(pts))][3] + rng.randrange(0, 4)}
         else:
             fault = {'kind': 'gate', 'thread': None, 'nline': rng.randrange(1, 60)}
-        rcases.append(mk_case(ctx, kind, fl, i, fault=fault, policy=pol, knobs=knobs, timeout=rng.choice([1, 5]), tag='random'))
+        fault2 = None
+        if lib.base_kind(kind) != 'thread' and rng.random() < 0.35:
+            # a slow control thread in the child: descheduled at one of its lines, e.g. between noting the request and raising
+            # the exception in the working thread, while the working thread goes on
+            fn2 = 'ProcessWorker._ctrl_fn' if lib.base_kind(kind) == 'process' else rng.choice(['RemoteWorker._ctrl_fn_local', 'RemoteWorker._ctrl_fn_remote'])
+            fault2 = {'kind': 'stall', 'role': fn2, 'any_thread': True, 'qualname': fn2, 'occ': rng.randrange(1, 14), 'duration': rng.choice([0.2, 1.0])}
+        rcases.append(mk_case(ctx, kind, fl, i, fault=fault, policy=pol, knobs=knobs, timeout=rng.choice([1, 5]), tag='random', fault2=fault2))
         if len(rcases) >= 2000:
             ctx.run(rcases, 'random')
             rcases = []
